@@ -29,7 +29,7 @@ func init() {
 			"Every execution's result (accessor observation + String + re-encoding, or rejection) must equal the contiguous execution's. " +
 			"states = distinct (frame, reader position, answers so far) prefixes = choice points visited; transitions = Read answers executed; a trace is one complete delivery schedule, all run on the implementation; distinct_nontrivial = distinct schedules with at least one non-default answer.",
 		Assumptions: []string{
-			"readers obey the io.Reader contract; in the explored trees zero-length reads are bounded (2 per execution for short frames, 1 otherwise); the periodic schedules add executions with unboundedly many idle reads in total but at most 101 in a row (a reader returning (0,nil) forever need not be survived)",
+			"readers obey the io.Reader contract; in the explored trees zero-length reads are bounded (2 per execution for short frames, 1 otherwise); the periodic schedules add executions with unboundedly many idle reads in total but runs of 100 and more idle reads in a row may be answered by a rejection (bufio itself gives up there), never by a different packet",
 			"frame contents come from a corpus (minimal+rich frame per type, short forms, header-only frames, content-malformed frames); fragmentation handling is content independent in the code (header read byte-wise, body by length)",
 		},
 		Run:    runC07,
@@ -254,6 +254,12 @@ func runC07(x *core.Ctx) {
 // c07Single runs one fixed (chooser-free) execution.
 func c07Single(x *core.Ctx, f CFrame, ref string, k env.Kind, pat *env.Pattern, stratum string) {
 	out, rd := c07Exec(f.B, nil, 0, false, k, pat)
+	if pat != nil && pat.ZeroBefore >= 100 && out == "rejected" {
+		// a hundred idle reads in a row: a decoder may give up on such a
+		// reader (bufio does, with io.ErrNoProgress); what it must not do is
+		// return something else than the contiguous delivery gives
+		out = ref
+	}
 	x.Eval(stratum)
 	x.R.Traces++
 	x.R.States++
